@@ -62,7 +62,7 @@ def run_case(case):
     viol = []
     g = np.random.default_rng(case["seed"])
     cfg = boundary.gen_case_cfg(g)
-    shown = {k: cfg[k] for k in ("sampler", "xp", "dtype", "n", "opts", "precond", "outside_mode", "recipe", "resume")}
+    shown = {k: cfg.get(k) for k in ("sampler", "xp", "dtype", "n", "opts", "precond", "outside_mode", "recipe", "resume", "cut_below")}
     where = f"{shown}"
     out = boundary.execute(cfg)
     counters["runs"] += 1
